@@ -863,6 +863,53 @@ func (e *mdExec) Do(line string) string {
 	}
 	items := mdParse(buf.String())
 
+	// ---- oracle: every referenced definition OBJECT is listed (by object, not by entity id: two
+	// definitions that share an id — a clone that kept the id of its original — are two definitions) ----
+	{
+		type def struct{ kind, name string }
+		seenObj := map[any]def{}
+		var walk func(s acmelib.Signal)
+		walk = func(s acmelib.Signal) {
+			if ss, err := s.ToStandard(); err == nil && ss != nil {
+				seenObj[ss.Type()] = def{"type", ss.Type().Name()}
+				if u := ss.Unit(); u != nil {
+					seenObj[u] = def{"unit", u.Name()}
+				}
+			}
+			if es, err := s.ToEnum(); err == nil && es != nil {
+				seenObj[es.Enum()] = def{"enum", es.Enum().Name()}
+			}
+			if mx, err := s.ToMultiplexer(); err == nil && mx != nil {
+				for _, grp := range mx.GetSignalGroups() {
+					for _, c := range grp {
+						walk(c)
+					}
+				}
+			}
+		}
+		for _, b := range g.net.Buses() {
+			for _, ni := range b.NodeInterfaces() {
+				for _, m := range ni.SentMessages() {
+					for _, sg := range m.Signals() {
+						walk(sg)
+					}
+				}
+			}
+		}
+		ids := map[acmelib.EntityID]def{}
+		text := buf.String()
+		for obj, d := range seenObj {
+			id := obj.(interface{ EntityID() acmelib.EntityID }).EntityID()
+			if o, dup := ids[id]; dup && o != d {
+				e.add("C16", "c16-definitions-share-an-id", sprintf("%s: the %s %q and the %s %q, both referenced by signals of the network, have the same entity id %s: the appendix (keyed by id) lists one of them", short, o.kind, o.name, d.kind, d.name, id))
+			}
+			ids[id] = d
+			if d.name != "" && strings.TrimSpace(d.name) == d.name && !strings.ContainsAny(d.name, "|\n\\") && !strings.Contains(text, d.name) {
+				e.add("C16", "c16-referenced-definition-not-listed", sprintf("%s: the %s %q is referenced by a signal of the network and its name does not occur in the document", short, d.kind, d.name))
+			}
+		}
+	}
+
 	// ---- oracle: sections ----
 	var wantHead []string
 	wantHead = append(wantHead, "H1:"+g.net.Name())
